@@ -41,8 +41,8 @@ CHECKS = {
         'engine': 'langx',
         'rule': 'flat operator sequences vs exact-arithmetic reference (set-valued where the document is silent)',
         'parts': [
-            P('props/C04.cpp', 'asan', 'expr-asan', tier_args={'quick': ['--ops', '2'], 'thorough': ['--ops', '3']}),
-            P('props/C04.cpp', 'fast', 'expr-fast', tier_args={'quick': ['--ops', '3'], 'thorough': ['--ops', '4']}),
+            P('props/C04.cpp', 'asan', 'expr-asan', tier_args={'quick': ['--ops', '2', '--seqlen', '3'], 'thorough': ['--ops', '3', '--seqlen', '4']}),
+            P('props/C04.cpp', 'fast', 'expr-fast', tier_args={'quick': ['--ops', '3', '--seqlen', '4'], 'thorough': ['--ops', '4', '--seqlen', '5']}),
         ],
         'floor': {'quick': 20, 'thorough': 20},
     },
